@@ -67,6 +67,17 @@ Proof.
     destruct (blk || existsb marked args); simpl; rewrite ?app_nil_r, ?app_assoc; rewrite <- Hs, ?app_assoc; auto.
 Qed.
 
+Lemma delegated_order_preserved : forall args,
+  Forall seq_ok args -> trace_delegated args = go_delegated args.
+Proof.
+  intros args H. pose proof (args_order_preserved false 0 args H) as A.
+  unfold seq_ok, trace_delegated, go_delegated in *. simpl in A.
+  destruct (tr_args (map tr args) (existsb marked (tl args))) as [p i].
+  destruct (existsb marked args); simpl in A.
+  - rewrite app_nil_r in A. rewrite app_assoc in A. apply app_inv_tail in A. auto.
+  - rewrite app_assoc in A. apply app_inv_tail in A. auto.
+Qed.
+
 Lemma ordered_sound : forall e, ordered e = true -> seq_ok e.
 Proof.
   induction e using hexpr_ind'; intros Ho.
